@@ -369,4 +369,35 @@ Section Probe.
     end.
 
   Definition failures (qs : list osp) (o : json) : list (N * reason) := failures_from 0 qs o.
+
+  (** * The callers of the prober *)
+
+  (** recordingProbe (internal/controllers/phase_reconciler.go:111-150): ReconcilePhase probes
+      every object of the phase (:213); an object gets an entry in ProbingResult.FailedProbes
+      iff the success flag of the prober is false (:126-129) -- whatever the messages are, also
+      none or empty ones (recordForObj :135-140 always appends); the result is zero iff no
+      object was recorded (:142-151). An object whose reconciliation ends in NotFound is not probed
+      but recorded as missing (:203-207, :131-133); it is None here. One boolean per object:
+      recorded or not. *)
+  Definition record_one (p : prober) (o : option json) : bool :=
+    match o with Some o => negb (fst (p o)) | None => true end.
+
+  Definition record_phase (p : prober) (objs : list (option json)) : list bool :=
+    map (record_one p) objs.
+
+  Definition result_is_zero (recorded : list bool) : bool := negb (existsb (fun b : bool => b) recorded).
+
+  (** objectSetPhasesReconciler.reconcile
+      (internal/controllers/objectsets/objectsetphases_reconciler.go:220-235): on every pass the
+      prober is parsed from the availabilityProbes of the ObjectSet being reconciled and handed
+      to ReconcilePhase; nothing is kept from one pass to the next. A call is (probe list of the
+      ObjectSet, objects of its phase as found on the cluster). *)
+  Definition verdict (call : list osp * list (option json)) : (N * perr) + list bool :=
+    match parse (fst call) with
+    | inl e => inl e
+    | inr p => inr (record_phase p (snd call))
+    end.
+
+  Definition run_history (calls : list (list osp * list (option json))) : list ((N * perr) + list bool) :=
+    map verdict calls.
 End Probe.
